@@ -1,6 +1,7 @@
 package consensus
 
 import (
+	"bytes"
 	"errors"
 	"fmt"
 	"slices"
@@ -475,6 +476,17 @@ func (s *service) currentHeight() uint32 {
 	return s.tipIndex
 }
 
+// isPooledAsIs tells whether the pool holds the given transaction with the very
+// same witnesses. The hash of a transaction doesn't cover its witnesses, so a
+// verified transaction with the same hash in the pool says nothing about the
+// witnesses of the one that came with the proposal.
+func isPooledAsIs(mp *mempool.Pool, tx *transaction.Transaction) bool {
+	pooled, ok := mp.TryGetValue(tx.Hash())
+	return ok && slices.EqualFunc(pooled.Scripts, tx.Scripts, func(a, b transaction.Witness) bool {
+		return bytes.Equal(a.InvocationScript, b.InvocationScript) && bytes.Equal(a.VerificationScript, b.VerificationScript)
+	})
+}
+
 func (s *service) validatePayload(p *Payload) bool {
 	validators := s.getValidators()
 	if int(p.message.ValidatorIndex) >= len(validators) {
@@ -635,7 +647,7 @@ func (s *service) verifyBlock(b dbft.Block[util.Uint256]) bool {
 		var err error
 
 		fee += tx.SystemFee
-		if mainPool.ContainsKey(tx.Hash()) {
+		if isPooledAsIs(mainPool, tx) {
 			err = pool.Add(tx, s.Chain)
 			if err == nil {
 				continue
